@@ -13,7 +13,7 @@ MANIFEST = {
             "unprotect (protect x) = x, also after moving the ciphertext behind the envelope (LAPS layout) and with another cache holding the same root key. Tie: the model's protect "
             "output equals the implementation's blob byte for byte under the symbolic crypto, and the round trip is replayed through the public sync and async API for plaintext lengths "
             "0..70000, SID shapes, 4 hashes x {nonce, DH, ECDH_P256, ECDH_P384}, clock boundary tables and both layouts; the same with the real crypto.",
-    "note": "Exact hypotheses of C01_roundtrip_offline: CryptoLaws c; the true root key loaded and any cached entry of the triple conforming to MS-GKDI (cache_ok - with a non-conforming cached envelope the round trip is FALSE, witness C01_nonconforming_cache_entry); well-formed SID; 0 <= time_ns (protect SUCCESS additionally needs L0 <= 2^31-1, i.e. time_ns < 7.9e25); draws of 32/12/32 octets; wrapped key and ciphertext shorter than 2^32; a KDF that never returns the empty string. Public-key modes (C01_roundtrip_pubkey, _pubkey_ecdh) are stated for encrypt_blob/decrypt_blob with the DC's envelopes. Conditional on CryptoLaws (the `cryptography` primitives are modelled, not verified). Public-key modes need a DC reply: the harness supplies conforming envelopes (seed-key and public-key shapes) in place of the RPC (the RPC conversation itself is property C17).",
+    "note": "Exact hypotheses of C01_roundtrip_offline: CryptoLaws c; the true root key loaded and any cached entry of the triple conforming to MS-GKDI (cache_ok - with a non-conforming cached envelope the round trip is FALSE, witness C01_nonconforming_cache_entry); well-formed SID; 0 <= time_ns (protect SUCCESS additionally needs L0 <= 2^31-1, i.e. time_ns < 7.9e25); draws of 32/12/32 octets; wrapped key and ciphertext shorter than 2^32; a KDF that never returns the empty string. Public-key modes (C01_roundtrip_pubkey, _pubkey_ecdh) are stated for encrypt_blob/decrypt_blob with the DC's envelopes; in DH mode the envelopes (the DC's and any cached one: cache_ok.eo_sparams) carry the root key's DH parameters and an ephemeral or group public value in {0, 1, p-1} is refused by the receiver since the repair of D16; the agreement theorems assume valid group elements (probability of a degenerate draw in the RFC 5114 group: 2^-256). Conditional on CryptoLaws (the `cryptography` primitives are modelled, not verified). Public-key modes need a DC reply: the harness supplies conforming envelopes (seed-key and public-key shapes) in place of the RPC (the RPC conversation itself is property C17).",
     "technique": "Coq proof by composition of the per-layer theorems under explicit crypto laws + byte-exact end-to-end correspondence",
 }
 ASSUMPTIONS = ["CryptoLaws: aes_key_unwrap(k, aes_key_wrap(k, x)) = x; AESGCM decrypt(encrypt(p)) = p; ECDH commutes; KDFs are functions",
